@@ -1356,6 +1356,25 @@ def fam_kqseq(rnd, i):
                     "rename_new_chmod", "write_overwrite", "away_recreate", "chain", "swap", "create_remove", "create_write", "overwrite_write",
                     "away_recreate_write", "two_overwrites"])
     A, B, M = ("d1", "a"), ("d1", "b"), ("d1", "m")
+    S = ("d1", "sub")
+    if rnd.random() < 0.2:
+        # the same for an entry that is a DIRECTORY: removed and made again, replaced by a file, renamed away and its name reused
+        steps.insert(4, fs("mkdir", S))
+        t = rnd.choice(["dir_remove_recreate", "dir_to_file", "dir_away_recreate"])
+        if t == "dir_remove_recreate":
+            ops, after = [fs("rmdir", S), fs("mkdir", S)], []
+        elif t == "dir_to_file":
+            ops, after = [fs("rmdir", S), fs("create", S), fs("create", ("d1", "z"))], [S, ("d1", "z")]
+        else:
+            ops, after = [fs("rename", S, to=M), fs("mkdir", S)], []
+        steps.append({"s": "rep", "k": 1, "pat": pre + ops, "atomic": True})
+        steps += [{"s": "drain"}, {"s": "obs"}]
+        for q in after:
+            steps += [fs("write", q), {"s": "drain"}]
+        steps += [fs("chmod", S), {"s": "drain"}]
+        steps += [fs("create", ("d1", "last")), {"s": "drain"}, fs("chmod", ("d1", "last")), {"s": "drain"}, {"s": "obs"}, call(w, "watchlist"),
+                  call(w, "remove", ("d1",), sp), {"s": "obs"}, call(w, "close"), {"s": "drain"}, {"s": "obs"}]
+        return steps
     if t == "chmod_overwrite":
         ops, after = [fs("chmod", B), fs("rename", A, to=B)], [B]
     elif t == "write_overwrite":
